@@ -122,6 +122,10 @@ def check_structured(scfg):
         b = be[0]
         if len(b.backedges) != 1:
             raise Viol("C03", "multiple_backedges", (b.name, b.backedges))
+        if b.backedges[0] not in b._jump_targets:
+            # the arc set is _jump_targets; `backedges` only flags members of it
+            raise Viol("C03", "declared_backedge_is_not_an_arc",
+                       (rn, b.name, b._jump_targets, b.backedges))
         hdr = resolve(r.header, leaves, regions)
         if resolve(b.backedges[0], leaves, regions) != hdr:
             raise Viol(
